@@ -191,17 +191,22 @@ def index_resolution(ctx: Ctx):
     e = expand(ctx.repo, ci, "is_difference", stop=lambda m: True)
     ctx.check_expr("index-resolution", "dimension.py::_Subtotal.is_difference", e, "bool(self.subtrahend_ids)")
     st = ctx.repo.cls("dimension.py", "_Subtotals")
-    m = ctx.repo.lookup(st, "_iter_valid_subtotal_dicts")
-    tests = [u(n.test) for n in ast.walk(m.node) if isinstance(n, ast.If) and any(isinstance(x, ast.Continue) for x in n.body)]
+    from ..stmts import collect_test_atoms, match_atom
+
+    if ctx.repo.lookup(st, "_iter_valid_subtotal_dicts") is None:
+        raise AnalysisError("_Subtotals._iter_valid_subtotal_dicts vanished")
+    cands = collect_test_atoms(ctx.repo, st, "_iter_valid_subtotal_dicts")
     want = [
-        "not isinstance(insertion_dict, dict)",
-        "insertion_dict.get('function') != 'subtotal'",
-        "insertion_dict.get('hide') is True",
-        "not {'anchor', 'name'}.issubset(insertion_dict.keys())",
-        "not (positive or negative)",
-        "not self._element_ids.intersection(positive + negative)",
+        ("isinstance(insertion_dict, dict)", "not a dict"),
+        ("insertion_dict.get('function') != 'subtotal'", "not a subtotal"),
+        ("insertion_dict.get('hide') is True", "hidden insertion"),
+        ("{'anchor', 'name'}.issubset(insertion_dict.keys())", "anchor or name missing"),
+        ("insertion_dict.get('kwargs', {}).get('positive') or insertion_dict.get('args', []) or insertion_dict.get('kwargs', {}).get('negative', [])", "no terms"),
+        ("self._element_ids.intersection((insertion_dict.get('kwargs', {}).get('positive') or insertion_dict.get('args', [])) + insertion_dict.get('kwargs', {}).get('negative', []))", "wholly stale"),
     ]
-    ctx.ob("index-resolution.filters", "dimension.py::_Subtotals._iter_valid_subtotal_dicts", sorted(tests), sorted(want), sorted(tests) == sorted(want), "malformed, hidden, empty and wholly stale insertions are skipped")
+    for w, what in want:
+        ok, why = match_atom(cands, w)
+        ctx.ob("index-resolution.filters", f"dimension.py::_Subtotals._iter_valid_subtotal_dicts [{what}]", [u(c)[:70] for c in cands][:8], w, ok, why or "malformed, hidden, empty and wholly stale insertions are skipped")
 
 
 def flags(ctx: Ctx):
@@ -333,6 +338,13 @@ def wave_diff(ctx: Ctx):
                         return s
                     if dim_expr and t == f"{dim_expr} == DT.CAT_DATE":
                         return is_cd
+                    # the type itself (so that `!=`, `in (...)`, a flipped guard ... evaluate as well)
+                    if dim_expr and t == dim_expr:
+                        return "CAT_DATE" if is_cd else "CAT"
+                    if isinstance(x, ast.Attribute) and isinstance(x.value, ast.Name) and x.value.id == "DT":
+                        from ..typetab import dt_value
+
+                        return dt_value(ctx.repo, x.attr)
                     raise KeyError
 
                 def calls(c: ast.Call, it: Interp):
